@@ -60,6 +60,7 @@ class Monitor:
         }
         # asynchronous requests (C16)
         self.steps_in = []       # (sid, tt, inputs, event index) judged in finish()
+        self.n_begun = 0
         self.async_pending = collections.defaultdict(dict)   # dst sid -> {(attr, src_full): val}
         self.async_delivered = set()
         self.finalized = collections.Counter()
@@ -99,6 +100,7 @@ class Monitor:
 
     # ------------------------------------------------------------------------
     def on_begin(self, ev):
+        self.n_begun += 1
         _, sid, k, t, inputs, madv = ev
         T, until, D, X = self.T, self.until, self.D, self.X
         conns = T.conns
@@ -507,6 +509,10 @@ class Monitor:
                              f"{sid} performed {n} steps within time step {t} "
                              f"(max_loop_iterations={T.max_loop})", sim=sid)
                     break
+        if result[0] == "exc" and result[1] == "ScenarioError" and not any(
+                e[0] == "B" for e in self.steps_in) and self.n_begun == 0 \
+                and T.unresolved_cycle() is not None:
+            return self.viol      # the expected rejection of a scenario with an unresolved cycle
         if result[0] == "ok":
             for sid in T.sims:
                 lost = [x for x in self.pending(sid) if x[0] < self.until]
